@@ -121,7 +121,7 @@ def op_node(draw, o: Opts, streams: List[int], depth: int, names: Optional[List[
         cat, pool = "user_annotation", [a for a in vocab.USER_ANNOTATIONS if a != "## backward ##"]
     kids = draw(body(o, streams, depth + 1)) if depth < o.max_depth else []
     return {"t": "op", "name": pick(draw, pool), "cat": cat, "pre": pick(draw, SMALL), "post": pick(draw, SMALL),
-            "min": pick(draw, [0, 1, 1, 2, 4] if not kids else [0]), "kids": kids}
+            "min": pick(draw, ([0] if o.p_zero_op > 0 else []) + [1, 1, 2, 4] if not kids else [0]), "kids": kids}
 
 
 @st.composite
